@@ -189,7 +189,9 @@ Cases ==
          {[Cs("logic") EXCEPT !.n = n, !.xor = o, !.x = x, !.y = y] :
             n \in 0..((NBits - 1) \div 2), o \in BOOLEAN,
             x \in (IF Tier = "quick" THEN {0, 6, P - 1, 21} ELSE BoundaryX),
-            \* (BoundaryX x BoundaryX over F_97 is > 6*10^6 states: measured, not finished in 50 min)
+            \* (the F_97 instance of this family did not finish: BoundaryX x BoundaryX > 6*10^6 states in
+            \* 50 min, BoundaryX x 2 values still running after 47 min; the thorough tier therefore uses
+            \* the F_29 instance with the boundary value set, see GadgetSearch_logic_97.cfg)
             y \in (IF Tier = "quick" THEN {5, P - 1} ELSE {5, P - 1})}
     [] Family = "arith" ->
          {NX("boolean", 0, x) : x \in AllX}
